@@ -50,7 +50,9 @@ class C07(MotionMonitor):
                (1.5, "firmware-mixed-parameters", mk(fw=True, fwparam_mix=True, p_inside=0.55)),
                (2, "plain", mk(rel=True, inch=True, arcs=True, at=True, retmove=True)),
                (1, "plain-g92e-retracted", mk(g92e_retracted=True, inch=True)),
-               (1.5, "relative-extrusion", mk(rel=True, inch=True, g90e=True, g92e_retracted=True, p_inside=0.5))]
+               (1.5, "relative-extrusion", mk(rel=True, inch=True, g90e=True, g92e_retracted=True, p_inside=0.5)),
+               (2, "relative-extrusion-inch-from-the-start", mk(rel=True, inch=True, g90e=True, p_inside=0.55, start_rel=0.8, start_inch=0.8,
+                                                                g92e=False))]
 
     def settings_for(self, rnd, feats):
         s = MotionMonitor.settings_for(self, rnd, feats)
